@@ -227,6 +227,18 @@ static void do_chacha(char **w) {
 	free(o); freeb(&key); freeb(&nonce);
 }
 
+/* chachas key nonce counter n1,n2,... : one context, one chacha20_generate_keystream call per count, outputs concatenated */
+static void do_chachas(char **w) {
+	buf_t key = hex2buf(w[1]), nonce = hex2buf(w[2]); uint32_t counter = (uint32_t)strtoul(w[3], NULL, 10);
+	size_t cnt[16], k = 0, tot = 0, off = 0, i; char *p = w[4];
+	while (*p && k < 16) { cnt[k] = (size_t)strtoul(p, &p, 10); tot += cnt[k]; k++; if (*p == ',') p++; }
+	CHACHA20_STATE st; uint8_t *o = malloc(tot ? 64 * tot : 1);
+	chacha20_init(&st, key.p, nonce.p, counter);
+	for (i = 0; i < k; i++) { chacha20_generate_keystream(&st, cnt[i], o + off); off += 64 * cnt[i]; }
+	puthex(o, 64 * tot); printf(" %08x", st.d[12]);
+	free(o); freeb(&key); freeb(&nonce);
+}
+
 /* hmenc mode key iv aad chunks -> all output bytes (ct || tag) ; mode = cbc | ctr
  * hmdec / hmdecq mode key iv aad chunks -> plaintext | ERR (q: report untouched *outlen) */
 static void do_hm(char **w, int dec, int strict) {
@@ -292,6 +304,7 @@ static void handle(size_t nw, char **w) {
 	else if (!strcmp(op, "zucmac") && nw == 6) do_zucmac(w, 0);
 	else if (!strcmp(op, "zuc256mac") && nw == 7) do_zucmac(w, 1);
 	else if (!strcmp(op, "chacha") && nw == 5) do_chacha(w);
+	else if (!strcmp(op, "chachas") && nw == 5) do_chachas(w);
 	else if (!strcmp(op, "hmenc") && nw == 6) do_hm(w, 0, 0);
 	else if (!strcmp(op, "hmdec") && nw == 6) do_hm(w, 1, 0);
 	else if (!strcmp(op, "hmdecq") && nw == 6) do_hm(w, 1, 1);
